@@ -197,8 +197,9 @@ func runGateWait(cs Case) outcome {
 	defer s.closeFn()
 	renewDone := make(chan error, 1)
 	go func() { renewDone <- s.sc.Renew(context.Background()) }()
-	if !waitFor(func() bool { return s.arrivedCount() >= 1 }, syncWait) {
-		return outcome{status: "inconclusive", detail: "renewal request not seen at the proxy"}
+	ctls.Store(s.sc, s.ctl)
+	if !waitFor(func() bool { return s.ctl.opn() != 0 }, syncWait) {
+		return outcome{status: "inconclusive", detail: "renewal request not written"}
 	}
 	to := time.Duration(cs.TimeoutMs) * time.Millisecond
 	bound := to + leniency
@@ -220,12 +221,7 @@ func runGateWait(cs Case) outcome {
 	r := s.call(ctx, 101, callTimeout)
 	ref := <-refDone
 	// let the renewal finish (answer it) so that the channel can be closed cleanly
-	s.mu.Lock()
-	held := s.heldOPN
-	s.mu.Unlock()
-	if held != nil {
-		s.pair.Inject("c2s", held)
-	}
+	s.releaseHeld()
 	select {
 	case <-renewDone:
 	case <-time.After(opTimeout + 2*time.Second):
